@@ -8,6 +8,8 @@
       /repo IS the specification-table parser; (3) theorems about that parser
       (Proofs/Printer…) state the rules themselves.
 -/
+import Proofs.Compose
+import Props.C15
 import Props.Tables
 import Proofs.ApiGlue
 import Proofs.Printer
@@ -156,5 +158,35 @@ example : Rendered [(.uident, [0x61]), (.dot, [0x2E]), (.uident, [0x62])] [0x61,
       (Rendered.cons [] .dot [0x2E] [0x2E] _ _ (by simp) (.basic 0x2E .dot (by decide))
         (Rendered.cons [] .uident [0x62] [0x62] _ _ (by simp) (.ident 0x62 [] (by decide) (by simp))
           (Rendered.nil [] (by simp)) trivial) trivial) (by simp [Follows, isIdTrail, isIdStart, isDigitB])
+
+/-! ### for arbitrary expressions (no restriction to printed forms) -/
+
+section AnyExpressions
+open Jmes.Parser Jmes.Spec
+variable {N : Type} [NumOps N]
+
+/-- **Redundant parentheses around ANY expression**: if the tokens `A` compile to `a`, then `( A )`
+    compiles to the same AST `a` (hence evaluates identically on every document). -/
+theorem C03_parentheses_around_any_expression (As : List Token) (eA eB l r : Token) (a : Node N) (total : Nat)
+    (heA : eA.ty = .eof) (heB : eB.ty = .eof) (hl : l.ty = .lparen) (hr : r.ty = .rparen)
+    (hnA : ∀ t ∈ As, t.ty ≠ .eof) (hA : parseTokens Generated.table (As ++ [eA]) = .ok a)
+    (htoks : Lexer.TokensOK total (l :: (As ++ [r, eB]))) :
+    parseTokens Generated.table (l :: (As ++ [r, eB])) = .ok a := by
+  have hsd := sameDecisions_of_tableOK Generated.table Spec.table generated_table_ok spec_table_ok
+  rw [parseTokens_congr hsd] at hA ⊢
+  exact parseTokens_of_R (paren_of_parse heA heB hl hr (parse_consumes_all heA hnA hA)) ⟨eB, [], rfl, heB⟩ htoks
+
+/-- **An expression is read the same way wherever an expression is expected up to a closing token**:
+    if `A` compiles to `a`, then at level 0 in any surroundings — after any consumed tokens, in front of
+    `)`, `]`, `}`, `,` or the end of input: inside parentheses, as a member of a multi-select list or
+    hash, as a function argument, as a filter condition — the parser reads exactly `A` and builds `a`.
+    So parenthesising such a member (`C03_parentheses_around_any_expression`) changes nothing either. -/
+theorem C03_member_is_read_as_alone (As : List Token) (eA : Token) (a : Node N)
+    (heA : eA.ty = .eof) (hnA : ∀ t ∈ As, t.ty ≠ .eof) (hA : parseTokens Spec.table (As ++ [eA]) = .ok a)
+    (bef : List Token) (f : Token) (rest : List Token) (hf : followerOK f.ty = true) (hpow : Parser.specPow f.ty = 0) :
+    R Spec.table (.expr 0 ⟨bef, As ++ f :: rest⟩) (.node a ⟨As.reverse ++ bef, f :: rest⟩) :=
+  expr0_in_context heA (parse_consumes_all heA hnA hA) bef f rest hf hpow
+
+end AnyExpressions
 
 end Jmes.Props
